@@ -34,6 +34,13 @@ pub fn gen_main(args: &[String]) {
     for bad in [vec![3usize], vec![0, 199], vec![57, 58, 59], vec![199]] { let mut wat = String::from("(module\n");
         for i in 0..200 { if bad.contains(&i) { wat += &format!("(func (result i32) i64.const {})\n", i); } else { wat += &format!("(func (result i32) i32.const {})\n", i); } } wat += ")";
         if let Ok(b) = wat::parse_str(&wat) { inputs.push((format!("invalid-bodies-{:?}", bad).replace(' ', ""), b)); } }
+    // degenerate bodies with NAMED parameters and locals (empty body, only nops, only unreachable, locals never touched): whatever shortcut a build takes for
+    // them, the code section AND the name section must be the serial build's
+    { let mut wat = String::from("(module\n");
+      for i in 0..40 { let body = match i % 5 { 0 => "", 1 => "nop", 2 => "unreachable", 3 => "nop nop", _ => "local.get $a drop" };
+          wat += &format!("(func $f{} (export \"e{}\") (param $a i32) (param $b{} i64) (local $unused{} f32) {})\n", i, i, i, i, body); }
+      wat += "(func $no_params_empty) (func $one_param_empty (param $only i32)))";
+      if let Ok(b) = wat::parse_str(&wat) { inputs.push(("degenerate-bodies-with-named-parameters".to_string(), b)); } }
     let tab = sigs::build_table(Profile::Full, false, 8);
     let gcfg = GenCfg { profile: Profile::Full, max_funcs: 12, max_depth: 3, seq_len: 6, names: true, customs: true, start: true, active_segments: true };
     let mut k = 0; while k < n { let (w, _) = gen::module(&mut r, &tab, &gcfg); if amod::validate(&w, feats).is_err() && !r.chance(1, 8) { continue; } inputs.push((format!("gen{}", k), w)); k += 1; }
